@@ -32,8 +32,9 @@ def showStr (r : DataRes) : String :=
 
 /-- one entry of the `inv` line: `name=result:errno` -/
 def showInvRes : Spec.Res → String
-  | .bool r => (if r.1 then "true" else "false") ++ ":" ++ r.2.name
-  | .data r => (match r.1 with | some d => "data" ++ hx d | none => "null") ++ ":" ++ r.2.name
+  -- errno is read after a failed call only; a refusal that leaves the caller's errno alone shows `kept`
+  | .bool r => if r.1 then "true:0" else "false:" ++ (if r.2 = .ok then "kept" else r.2.name)
+  | .data r => (match r.1 with | some d => "data" ++ hx d ++ ":0" | none => "null:" ++ (if r.2 = .ok then "kept" else r.2.name))
   | .nat n => s!"{n}:0"
   | .fault f => faultStr f
   | _ => "?"
